@@ -2,6 +2,10 @@
 import copy
 import dataclasses
 import importlib
+import json
+
+import canon
+import impl
 
 import gen_prog
 import pcommon
@@ -158,9 +162,18 @@ def count_decls(d):
     return n
 
 
+# declarations whose types go through the parser's placeholder (`auto`) handling, plain ones first: a qualifier written
+# in one sibling must not show up in another, and the result of an earlier parse must not change when a later one runs
+PLACEHOLDER_PIECES = ["void g(auto y);\n", "template <auto N> struct PN {};\n", "auto r1();\n", "void g2(int a, auto b, auto c);\n",
+                      "void k(auto const &v);\n", "void m(auto volatile *p);\n", "template <auto const N> struct Q {};\n",
+                      "void h(auto a, auto const b);\n", "void g3(auto z);\n", "const auto r2();\n", "void k2(const auto &v, auto w);\n",
+                      "template <class T> struct Box { Box(T); };\ntemplate <class T> Box(T) -> Box<T>;\n"]
+SNAPSHOTS = []
+
+
 def population(ctx, rng, n):
     """(text, ParsedData, anon count) of sequences that parse alone"""
-    base = []
+    base = list(PLACEHOLDER_PIECES)
     for t in pcommon.corpus():
         base.append(t)
     for _ in range(n):
@@ -178,6 +191,7 @@ def population(ctx, rng, n):
         except CxxParseError:
             continue
         out.append((t, d, k))
+        SNAPSHOTS.append((t, d, json.dumps(impl.to_json(d), sort_keys=True)))
     return out
 
 
@@ -231,6 +245,14 @@ def run(ctx):
         if got != exp:
             fails.append({"input": whole, "parts": [s[0] for s in seqs], "inner": inner, "diff": first_diff(got, exp)})
     ctx.oracle("compose", n, fails)
+    # results handed out earlier are values: parsing more text must not change them
+    sfails = []
+    for t, d, snap in SNAPSHOTS:
+        now = json.dumps(impl.to_json(d), sort_keys=True)
+        if now != snap:
+            sfails.append({"input": t, "diff": "the result of an earlier parse of this piece changed while later pieces were parsed: "
+                           + str(canon.first_diff(json.loads(snap), json.loads(now)))[:300]})
+    ctx.oracle("earlier_results_stable", len(SNAPSHOTS), sfails)
 
     # class bodies
     fails = []
